@@ -16,6 +16,31 @@ CHECKS = {
    "Explicit-state BFS over the real dispatcher with two connections and the embedded caller (SELECT 0/1/12, one write/read per kind, EXPIRE, DEL, FLUSHDB, FLUSHALL, SWAPDB, clock advance) from an empty and a multi-database root, depth 4/5, in three configurations (memory only, AOF always + clean restart, snapshot + restart on the in-memory file system). Oracle: reference selected-database index per caller; databases other than the selected one untouched (data, deadlines, volatile index, LRU/LFU heaps); (reply, new content) functionally determined by the selected database's content; every live key is in the same database after restart.",
    "Indices 0,1,12; what a connection opened after SWAPDB sees is unspecified and not compared; value fidelity across restart is C02/C03's business.",
    "explicit-state BFS over the real step function, non-interference oracle + reference index table", "DESIGN.md 6 C20"),
+
+ "C02": ("fault_enumeration",
+   "Crash enumeration on the real AOF code over a journalling in-memory file system: seed prefix + every sequence of <=2 (thorough <=3) writes over an alphabet with every data type, TCP/embedded callers, databases 0/1/12, zero-reply-but-mutating writes and a clock advance, x sync policy always/everysec/no; for each history EVERY journal prefix, EVERY byte-prefix of every write (torn record) and (thorough) every per-file suffix of unsynced operations dropped is recovered by a fresh server; oracle = recovered dataset is the dataset of a prefix of the history that contains every acknowledged write under `always`, start-up never fails, a clean restart is exact, and after recovery one more acknowledged write survives a clean restart.",
+   "Persistence model: per file operations reach the disk in order unless dropped as unsynced, files independent; fsync makes earlier writes of the file durable. The in-memory states of the same run are the semantic reference (durability, not command semantics).",
+   "exhaustive crash-point / torn-write / dropped-write enumeration of real file-operation journals", "DESIGN.md 4.2, 6 C02"),
+ "C03": ("model_checking",
+   "Explicit-state BFS over the real dispatcher and snapshot engine on the in-memory file system under a virtual clock: one write per value kind and database, deadlines, clock advances, synchronous snapshot, SAVE command, snapshot+restart, LASTSAVE, from an empty root and a root with equal key names in two databases; second configuration family for the automatic trigger (threshold 1..3, virtual interval ticker). Oracle: restored dataset = dataset at the snapshot minus keys expired at restore time (keys, kinds, values, deadlines, databases), LASTSAVE = snapshot time, snapshot taken within one interval once the threshold of write commands is reached.",
+   "Depth 3/4; the snapshot-under-concurrent-writers facet is covered by the scheduler scenarios of C05 (`getstate` actor).",
+   "explicit-state BFS over the real step function with restart actions, differential + reference oracle", "DESIGN.md 6 C03"),
+ "C04": ("model_checking",
+   "Explicit-state BFS over the real dispatcher under a virtual clock (clock advance and sampler tick are actions): SET forms, EXPIRE/PEXPIRE/EXPIREAT/PEXPIREAT x {none,NX,XX,GT,LT}, PERSIST, GETEX forms, MSET, readers and existence-conditional writers, in lazy-only and background-sampler configurations (policies x sample sizes); per-transition conformance to a reference deadline table written from the docs (dead keys indistinguishable from never-existing keys, live keys never removed, TTL family exact). Plus a scheduler facet: all interleavings (preemption bound 2/3) of pairs of commands and the sampler tick on an expired-but-present key, judged against serial outcomes.",
+   "TTL rounding and the reply of a refused conditional SET are unspecified in the docs and accepted either way; depth 3/4.",
+   "explicit-state BFS with time as an action + preemption-bounded schedule exploration", "DESIGN.md 6 C04"),
+ "C05": ("model_checking",
+   "Stateless preemption-bounded DFS over thread interleavings of the REAL handlers under a cooperative scheduler owning every mutex, RW-mutex (Go writer preference), wait-group, atomic (spin loops become blocking waits), goroutine spawn and channel operation of the instrumented build: all unordered pairs of a 53-command table covering every family on shared keys (bound 2 quick / 3 thorough), background actors (state copy, snapshot, AOF rewrite, FLUSHALL) against a writer and a reader, thorough also 2x2 command threads and triples of the commands that are atomic today. Oracle (differential): each interleaving's replies + final dataset must equal those of some serial order computed on the same build; no panic, deadlock, livelock, corrupt value. Non-atomic handler pairs that exist today are listed as known findings per pair; everything else (MSET/MGET/DEL/FLUSH atomicity, lock order, spin-loop termination) is guarded.",
+   "Interleaving at synchronisation operations is complete only for data-race-free code; unsynchronised accesses need the free-running -race pass (not part of this check). Go map iteration order uncontrolled (multiset comparison for unordered replies).",
+   "stateless model checking: cooperative scheduler + iterative preemption bounding, serializability oracle", "DESIGN.md 4.3, 6 C05"),
+ "C09": ("fault_enumeration",
+   "Crash enumeration (same engine as C02) over every sequence of <=3 (thorough <=4) actions from {SET, INCR, RPUSH, SADD, DEL, SET..EX, SELECT 1, embedded SET, REWRITEAOF} that contains a rewrite (first, last, twice, on an empty log): every journal prefix and torn write over ALL operations of the history - in particular each file operation of CreatePreamble and Truncate - thorough also dropped unsynced writes of the rewrite and all three sync policies. Oracle: restored dataset = dataset of a prefix containing everything acknowledged before the rewrite began (no loss, duplication or re-typing), durable again after recovery.",
+   "Writer-vs-rewrite interleavings are explored by the C05 scheduler scenarios (`rewrite` actor), not here. Persistence model as C02.",
+   "exhaustive crash-point / torn-write enumeration of real file-operation journals", "DESIGN.md 6 C09"),
+ "C10": ("fault_enumeration",
+   "Crash enumeration over the real TakeSnapshot on the journalling in-memory file system: datasets x 0..2 earlier snapshots x {new writes, nothing new}; every journal prefix inside the crashed snapshot, every byte-prefix of each of its writes, thorough also dropped unsynced writes; a fresh server with snapshot restore must yield exactly what it yields from a COMPLETED snapshot (previous or new) incl. LASTSAVE; a failed/no-op attempt must leave files and LASTSAVE untouched; the completed snapshot must restore the key set of its instant (guards the differential reference against vacuity).",
+   "Persistence model as C02; two snapshots never share a millisecond.",
+   "exhaustive crash-point / torn-write enumeration of real file-operation journals", "DESIGN.md 6 C10"),
 }
 NOT_YET = "check not built yet (work in progress; see DESIGN.md section 9 for build order)"
 m={"version":1,
